@@ -360,6 +360,33 @@ def run_case(case):
                             errors.append(f"chunk deletion was requested but directory {sub} remains")
                 if case.get("mem") == "low" and not any("npz" in e or "chunks" in e for e in _OBS["events"]):
                     errors.append("HARNESS: the low-memory answer did not make the trainer write chunk files (seam lost?)")
+        if case.get("second") and trainer is not None and not errors:
+            # history: a SECOND trainer is constructed for the same output folder with a different configuration (what a
+            # resumed / continued run does: resume_ckpt_path set, more epochs); its initial_config.yaml must describe the
+            # configuration supplied NOW, and the key must still be on no file
+            cfg2 = cfg.copy()
+            cfg2.trainer_config.resume_ckpt_path = os.path.join(out, "last.ckpt")
+            cfg2.trainer_config.max_epochs = 2
+            supplied2 = OmegaConf.to_container(verify_training_cfg(cfg2.copy()), resolve=True)
+            os.chdir(cwd_chunks)
+            try:
+                ModelTrainer(cfg2)
+            except Exception as e:
+                errors.append(f"second ModelTrainer(config) for the same folder raised {type(e).__name__}: {str(e)[:200]}")
+            finally:
+                os.chdir(old_cwd)
+            if not errors:
+                init2 = OmegaConf.to_container(OmegaConf.load(os.path.join(out, "initial_config.yaml")), resolve=True)
+                if blank(init2) != blank(supplied2):
+                    d2 = [k for k in ("data_config", "model_config", "trainer_config") if blank(init2).get(k) != blank(supplied2).get(k)]
+                    errors.append(f"second trainer in the same folder: initial_config.yaml differs from the configuration supplied to it in {d2} (resume_ckpt_path recorded: {init2.get('trainer_config', {}).get('resume_ckpt_path')!r})")
+                for dp, dn, fn in os.walk(out):
+                    for f in fn:
+                        try:
+                            if KEY.encode() in open(os.path.join(dp, f), "rb").read():
+                                errors.append(f"second trainer in the same folder: API key found in {os.path.relpath(os.path.join(dp, f), out)}")
+                        except OSError:
+                            pass
     finally:
         observer_stop()
         shutil.rmtree(tmp, ignore_errors=True)
@@ -390,6 +417,11 @@ def grid(tier):
     if tier != "quick":
         sparse = [{"model": mt, "fw": fw, "wandb": wb, "ckpt": True, "kind": "plain-null"} for mt in MODEL_TYPES for fw in ("torch_dataset", "torch_dataset_np_chunks") for wb in (False, True)]
     lowmem = lowmem + sparse
+    # history: a second trainer constructed for the same output folder (continued / resumed run)
+    again = [{"model": MODEL_TYPES[(i + 2) % 4], "fw": "torch_dataset", "wandb": wb, "ckpt": True, "kind": kind, "second": True} for i, (wb, kind) in enumerate([(False, "plain"), (True, "structured")])]
+    if tier != "quick":
+        again = [{"model": mt, "fw": fw, "wandb": wb, "ckpt": True, "kind": "plain", "second": True} for mt in MODEL_TYPES for fw in ("torch_dataset", "torch_dataset_np_chunks") for wb in (False, True)]
+    lowmem = lowmem + again
     if tier == "quick":
         # pairwise-complete 16-run sub-grid: all fw x wandb x ckpt x kind combinations, model types alternating
         out = []
